@@ -415,6 +415,58 @@ def flex_reader(F, R):
     R.ob("P3.last-marker", fn, "next==MAX", okm and okd,
          "%s: L::MAX marks the last item, which owns all remaining bytes; any other offset n is the item's extent only if n <= remaining length" % fn,
          where=b["span"])
+    # P3b: the extent of a sealed item is a multiple of the vector's ALIGN (so the next slot - the terminator too - is aligned and
+    # size()'s "one more full slot" stays inside the bytes): the step over a sealed item (the split at item_len) is taken only on the
+    # `item_len % ALIGN == 0` edge, the other edge is a content error at the slot
+    steps = [(bb_, t_) for bb_, t_ in find_calls(body, "Data::split") if ab(canon(body.expr_of_call(t_, 0, bb_)[3][1])) == "%item_len"]
+    okal, why_al = False, ""
+    if len(steps) == 1:
+        for sb2, st2 in body.switches():
+            cnd = body.expr_of_operand(st2["switch"])
+            for truth in (True, False):
+                n_ = norm_cmp(cnd, truth)
+                if not n_ or n_[0] != "Eq":
+                    continue
+                sides = {ab(canon(n_[1])), ab(canon(n_[2]))}
+                if sides == {"0", "Rem(%item_len, ALIGN)"}:
+                    ft2 = [b_ for v, b_ in st2["targets"] if int(v) == 0]
+                    if not ft2:
+                        continue
+                    eq_t, ne_t = (st2["otherwise"], ft2[0]) if truth else (ft2[0], st2["otherwise"])
+                    errs = [r for _, r in ret_stores(body, body.reachable_from(ne_t, avoid=[eq_t]))]
+                    if errs != ["Some{Err{Error{InvalidData{}, $self.1}}}"]:
+                        continue
+                    # every FEASIBLE path to the step passes the == 0 edge (the check sits under `!last`, the step under a second `!last`:
+                    # a path that answers the same condition differently at the two tests does not exist)
+                    good, nfeas = True, 0
+                    for pth in body.paths(0, stop=[steps[0][0]]):
+                        if pth[-1] != steps[0][0]:
+                            continue
+                        seen, feasible = {}, True
+                        for ev in events(body, pth):
+                            if ev.kind == "branch":
+                                bt = bool_taken(ev)
+                                if bt is None:
+                                    continue
+                                key = ab(canon(ev.a))
+                                if key in seen and seen[key] != bt:
+                                    feasible = False
+                                seen[key] = bt
+                        if not feasible:
+                            continue
+                        nfeas += 1
+                        if not any(pth[i_] == sb2 and pth[i_ + 1] == eq_t for i_ in range(len(pth) - 1)):
+                            good = False
+                    if good and nfeas:
+                        okal = True
+        if not okal:
+            why_al = " -- no `item_len % ALIGN == 0` edge dominates the step over a sealed item"
+    else:
+        why_al = " -- expected one split at item_len (found %d)" % len(steps)
+    R.ob("P3.sealed-extent-aligned", fn, "item_len % ALIGN", okal,
+         "%s: a sealed item's extent must be a multiple of the vector's alignment, anything else is a content error at its slot "
+         "(an unaligned extent would put the next slot / the terminator at an unaligned position: size() then counts bytes that are not there)%s" % (fn, why_al),
+         where=b["span"])
     R.ob("K1.errkind", fn, "offset-beyond-slice", "Some{Err{Error{InsufficientSize{}, $self.1}}}" in rs,
          "%s: an offset beyond the bytes present is InsufficientSize (more input can complete it)" % fn, where=b["span"])
     # payload_offset > item_len : kind depends on last
